@@ -408,6 +408,10 @@ ASMJIT_FAVOR_SIZE Error init_func_detail(FuncDetail& func, const FuncSignature& 
             else {
               // Each stack argument occupies at least a register-sized slot (an eightbyte on X64).
               uint32_t size = Support::max<uint32_t>(TypeUtils::size_of(type_id), register_size);
+              // Vector arguments are aligned to their size.
+              if (size >= 16u) {
+                stack_offset = Support::align_up(stack_offset, size);
+              }
               arg.assign_stack_offset(int32_t(stack_offset));
               stack_offset += size;
             }
